@@ -839,23 +839,35 @@ def expression(ctx, terminator=never):
 
             operator = operators.operators[operators.InfixOperator][char]
 
-            expr = expression_literal_rec(ctx, terminator=terminator, report=(
-                reports.critical,
-                "invalid-expression",
-                (ctx, ctx, "Could not parse an expression here"),
-                (ctx_op, ctx_op_end, f"...as expected after operator '{char}'." + (" If this was intended as two closing parentheses rather than right shift, please add spaces: '> >'." if char == ">>" else ""))
-            ))
-
             self_precedence = operator.precedence
             is_left_associative = operator.associativity == "left"
 
             while op_stack and (self_precedence, is_left_associative) > (op_stack[-1]["operator"].precedence, False):
                 pop_op_stack(ctx_prev)
 
-            stack.append(expr)
             op_stack.append({
                 "operator": operator
             })
+
+            # The right operand may carry prefix operators of its own: 1 + ~2
+            while True:
+                ctx.skip_whitespace()
+                ctx_prefix = ctx.save()
+                expr = expression_literal_rec(ctx, terminator=terminator, maybe=True)
+                if expr is not None:
+                    break
+                prefix_char = (~terminator + prefix_operator)(ctx, report=(
+                    reports.critical,
+                    "invalid-expression",
+                    (ctx, ctx, "Could not parse an expression here"),
+                    (ctx_op, ctx_op_end, f"...as expected after operator '{char}'." + (" If this was intended as two closing parentheses rather than right shift, please add spaces: '> >'." if char == ">>" else ""))
+                ))
+                op_stack.append({
+                    "ctx_start": ctx_prefix,
+                    "operator": operators.operators[operators.PrefixOperator][prefix_char]
+                })
+
+            stack.append(expr)
 
     while op_stack:
         pop_op_stack(ctx)
